@@ -48,6 +48,14 @@ class PoolInterp(Interp):
 
     def abuse(self, obj):
         r = self.abuse_rnd
+        if len(self.pool) % 7 == 0:
+            # endurance: many matching calls on one instance (use counters, auto-compilation thresholds)
+            self.abuses['hammer'] += 1
+            try:
+                for k in range(70):
+                    (obj.has_match, obj.is_exact_match, obj.get_matches)[k % 3]('a\nb ab')
+            except Exception:
+                pass
         for _ in range(r.choice([0, 1, 2, 3])):
             k = r.randrange(8)
             self.abuses[k] += 1
